@@ -743,6 +743,21 @@ def mon_c19(run, world):
         if e[0] == "graph":
             graphs[e[1]["graph"]] = e[1]
     final = {x[0]: x[1] for x in run["final"]}
+    # every invocation of one described job graph is instantiated the same way: with a deterministic deadline variance the
+    # slack (deadline - release) is the same for all of them, also for the invocations created while the run goes on
+    for g in world["workload"]["graphs"]:
+        dv = g.get("deadline_variance")
+        if not dv or dv[0] != dv[1] or world["flags"].get("decompose_deadlines"):
+            continue
+        names = [g["name"]] if rep <= 1 else ["%s_%d" % (g["name"], i) for i in range(1, rep + 1)]
+        for jn in names:
+            slacks = {}
+            for k, v in graphs.items():
+                if k.rsplit("@", 1)[0] == jn and v["deadline"] is not None and v["release"] is not None and v["release"] >= 0:
+                    slacks.setdefault(v["deadline"] - v["release"], []).append(k)
+            if len(slacks) > 1:
+                bad.append("invocations of job graph %s were given different deadline slacks %s (its description fixes the variance to %s)"
+                           % (jn, {k: v[:2] for k, v in sorted(slacks.items())}, dv[0]))
     for g in world["workload"]["graphs"]:
         pol = g.get("release_policy")
         n = g.get("invocations")
